@@ -52,12 +52,16 @@ type c04Write struct {
 	items  []itemSpec
 	fs     filterSpec
 	elFlag bool // delete elements names the flag field instead of payload field 0
+	noFn   bool // the cmd carries the filters but not the (optional) function element
 }
 
 func (u c04Write) String() string {
 	s := u.fs.String() + " " + specsStr(u.items)
 	if u.elFlag {
 		s += " elements=flag"
+	}
+	if u.noFn {
+		s += " cmd-without-function-element"
 	}
 	return s
 }
@@ -108,6 +112,14 @@ func c04Writes() []c04Write {
 	}
 	for _, l := range [][]itemSpec{{{id: 1, pay: "2-"}}, {{id: 2, pay: "2-"}}, {{id: 2, pay: "2-"}, {id: 3, pay: "2-", flag: 't'}}, nil} {
 		ws = append(ws, c04Write{items: l, fs: filterSpec{del: true, delSel: 1, partial: true}})
+	}
+	// the function element of a cmd is optional next to its filters (the filters name the function themselves): the
+	// selector, identifier and delete shapes once more as a peer may send them, without it
+	for _, w := range ws {
+		if (w.fs.partial || w.fs.del) && (w.fs.partialSel > 0 || w.fs.delSel > 0 || (w.fs.partial && len(w.items) == 1)) {
+			w.noFn = true
+			ws = append(ws, w)
+		}
 	}
 	return ws
 }
@@ -263,8 +275,10 @@ func c04Families(thorough bool) []*engine.IFamily {
 					cmd := model.CmdType{}
 					cmd.SetDataForFunction(sp.fn, sp.list(w.items))
 					if fp != nil || fd != nil {
-						fn := sp.fn
-						cmd.Function = &fn
+						if !w.noFn {
+							fn := sp.fn
+							cmd.Function = &fn
+						}
 						if fd != nil {
 							cmd.Filter = append(cmd.Filter, *fd)
 						}
